@@ -8,7 +8,7 @@ from pyvc import ops
 from specs import bez
 
 KIND = {'L': ('path.Line', 2), 'Q': ('path.QuadraticBezier', 3), 'C': ('path.CubicBezier', 4)}
-SHAPES_Q = ['L', 'C', 'LL', 'QC', 'CL', 'LQC', 'CLL']
+SHAPES_Q = ['L', 'C', 'LL', 'QC', 'CL', 'LQC', 'CLL', 'LLLLL']
 SHAPES = [{'kinds': k} for k in SHAPES_Q]
 
 
@@ -92,7 +92,7 @@ def T2t(c, kinds):
     c.ensures('point(T)==segment[k].point(t)', ops.eq(pt, bez.bern(pts[k], t)))
 
 
-@contract('C05', 'path.Path.t2T', params=SHAPES, level='per-shape')
+@contract('C05', 'path.Path.t2T', params=[p for p in SHAPES if len(p['kinds']) <= 3], level='per-shape')
 def t2T(c, kinds):
     path, segs, pts = mkpath(c, kinds)
     n = len(segs)
@@ -138,7 +138,7 @@ def point_of_empty_path_raises(c, kinds):
     c.ensures('ValueError', out.kind == 'raise' and out.exc == 'ValueError')
 
 
-CONT_SHAPES = [{'kinds': k} for k in ['L', 'LL', 'QC', 'LQC', 'CLL', 'LLLL']]
+CONT_SHAPES = [{'kinds': k} for k in ['L', 'LL', 'QC', 'LQC', 'CLL', 'LLLL', 'LLLLL', 'LCLQLL']]
 
 
 @contract('C05', 'path.Path.iscontinuous', params=CONT_SHAPES, level='per-shape')
